@@ -225,6 +225,11 @@ def c10():
         "Ok or Err, no panic", ["src/helpers/methods.rs: <MA as FromStr>::from_str"], 376, tier="t", timeout=1800, mem_gb=16)
     add("c10_parse_ma_len6", "as c10_parse_ma_len5, length 0..=6", ["src/helpers/methods.rs: <MA as FromStr>::from_str"],
         900, tier="t", core=False, timeout=2700, mem_gb=16)
+    for nm, txt in (("2byte_at6", "\"ema-\" + 2 symbolic ASCII bytes + any 2-byte character + 1 ASCII byte"), ("3byte_at5", "\"ema-\" + 1 ASCII + any 3-byte character + 1 ASCII"),
+                    ("3byte_at6", "\"sma-\" + 2 ASCII + any 3-byte character + 1 ASCII"), ("4byte_at6", "\"linreg\" + any 4-byte character + 1 ASCII"),
+                    ("2byte_at7", "\"trima-\" + 1 ASCII + any 2-byte character + 1 ASCII"), ("2byte_at3", "\"sm\" + 1 ASCII + any 2-byte character + 1 ASCII")):
+        add("c10_parse_ma_utf8_" + nm, "MA::from_str on non-ASCII text: " + txt + " (multi-byte characters straddling byte offsets 3..9): returns Err, never panics",
+            ["src/helpers/methods.rs: <MA as FromStr>::from_str"], 40, timeout=900)
     add("c10_parse_source_l0", "Source::from_str / try_from on the empty text: Err (texts of >= 2 symbolic bytes exceed 16 GB "
         "with CaDiCaL and Kissat: not decided)", ["src/core/candles.rs: <Source as FromStr>::from_str"], 372, tier="t",
         core=False, timeout=1800, mem_gb=16)
